@@ -123,7 +123,13 @@ pub struct CaseOut {
 
 /// Builds the dictionary, runs the sentences on one worker, and returns the Coq term of the case.
 pub fn run_case(gd: &GenDict, ignore_space: bool, mgl: usize, sentences: &[String], rng: &mut Rng, counting: bool, threads: usize, mode: &str) -> CaseOut {
-    let built = gd.build();
+    run_case_with(gd, &|| gd.build(), ignore_space, mgl, sentences, rng, counting, threads, mode)
+}
+
+/// Like `run_case`, with the dictionary under observation produced by `mk` (the Coq term still carries `gd`'s source rows).
+#[allow(clippy::too_many_arguments)]
+pub fn run_case_with(gd: &GenDict, mk: &dyn Fn() -> Outcome<vibrato::Dictionary>, ignore_space: bool, mgl: usize, sentences: &[String], rng: &mut Rng, counting: bool, threads: usize, mode: &str) -> CaseOut {
+    let built = mk();
     let head = |built: u8, conn: &str, space_res: u8, sents: &str| {
         format!(
             "(Build_tokcase {} {} {} {} {} {} {} {} {} {} @@EXTRA@@)",
@@ -151,7 +157,7 @@ pub fn run_case(gd: &GenDict, ignore_space: bool, mgl: usize, sentences: &[Strin
         tokenizer = tokenizer.max_grouping_len(if mgl == 0 { 3 } else { 0 });
         tokenizer = match tokenizer.ignore_space(!ignore_space) {
             Ok(t) => t,
-            Err(_) => match gd.build() {
+            Err(_) => match mk() {
                 Outcome::Ok(d) => vibrato::Tokenizer::new(d), // SPACE undefined: start over
                 _ => return CaseOut { term: fin(head(2, &gd.coq_matrix(), 0, "[]"), &extra), human, built: 2, sents: vec![] },
             },
@@ -278,7 +284,7 @@ pub fn run_case(gd: &GenDict, ignore_space: bool, mgl: usize, sentences: &[Strin
             let lo: Vec<u64> = lp.iter().map(|x| x.0 as u64).collect();
             let ro: Vec<u64> = rp.iter().map(|x| x.0 as u64).collect();
             let mut flags = vec![0u64, 0u64]; // accepted by map, same tokenization afterwards
-            if let Outcome::Ok(d2) = gd.build() {
+            if let Outcome::Ok(d2) = mk() {
                 let l16: Vec<u16> = lo.iter().map(|&x| x as u16).collect();
                 let r16: Vec<u16> = ro.iter().map(|&x| x as u16).collect();
                 let mapped = guarded(move || d2.map_connection_ids_from_iter(l16, r16));
